@@ -6,6 +6,7 @@
 pub mod api;
 pub mod corpus;
 pub mod engine;
+pub mod fuzzdec;
 pub mod gen;
 pub mod known;
 pub mod oracle;
